@@ -58,6 +58,7 @@ class Exec(ExprMixin, StmtMixin, CallMixin):
         if isinstance(k, tuple) and k[0] == 'obj': return self.make_object(k[1], p, name, k[2] if len(k) > 2 else None)
         if isinstance(k, tuple) and k[0] == 'const': return k[1]
         if isinstance(k, tuple) and k[0] == 'const_str': return VStr([k[1]])
+        if isinstance(k, tuple) and k[0] == 'map': return VMap(z3.Array(name + '.has', I, z3.ArraySort(I, B)), z3.Array(name + '.val', I, z3.ArraySort(I, I)))
         if isinstance(k, tuple) and k[0] == 'statusstr': return VStr([('status', z3.Int(name + '.code'))])
         if isinstance(k, tuple) and k[0] == 'enumsym': return VEnumSym(k[1], z3.Int(name))
         if isinstance(k, tuple) and k[0] == 'dict': return VDict({VEnum(k[1], m): self.make_value(kk, name + '.' + m, p) for m, kk in k[2].items()})
@@ -143,6 +144,18 @@ class Exec(ExprMixin, StmtMixin, CallMixin):
         if n == 'has':
             r = self.ev(a[0], p); nm = a[1].value
             return VBool(z3.Select(self.has_get(p, nm), r.t))
+        if n in ('map_has', 'map_get'):
+            m = self.ev(a[0], p); k1 = self.ev(a[1], p).t; k2 = self.ev(a[2], p).t
+            if n == 'map_has': return VBool(z3.Select(z3.Select(m.has, k1), k2))
+            return VInt(z3.Select(z3.Select(m.val, k1), k2))
+        if n == 'attr_eq_old':
+            # every Pair attribute of object r has the value it had at function entry
+            r = self.ev(a[0], p).t; o = self.old_stack[-1]
+            ts = []
+            for at in SCHEMA:
+                ts.append(z3.Select(self.heap_get(p, at), r) == z3.Select(self.heap_get(o, at), r))
+                ts.append(z3.Select(self.has_get(p, at), r) == z3.Select(self.has_get(o, at), r))
+            return VBool(z3.And(*ts))
         if n == 'alloc':
             r = self.ev(a[0], p)
             al = p.ghost.get('alloc')
@@ -409,6 +422,7 @@ def named_of_kind(name, k):
         return VList(z3.Int(name + '.len'), z3.Array(name + '.arr', I, sort_of(k[1])), k[1])
     if isinstance(k, tuple) and k[0] == 'str': return VStr([('opaque', name)])
     if isinstance(k, tuple) and k[0] == 'joinstr': return fresh_of_kind(name, k)
+    if isinstance(k, tuple) and k[0] == 'map': return VMap(z3.Array(name + '.has', I, z3.ArraySort(I, B)), z3.Array(name + '.val', I, z3.ArraySort(I, I)))
     raise StaleContract('unknown declared kind %r for %s' % (k, name))
 
 
